@@ -38,6 +38,8 @@ def module_global(ex, module, name):
         if nm in EXC_NAMES:
             return VExcClass(nm)
         return VFunc('extfunc', f'{base}.{nm}')
+    if name in getattr(mi, 'opaque_globals', ()) and name not in mi.globals_ast:
+        return VOpaque('object', f'{module}.{name}')
     if name in mi.globals_ast:
         node = mi.globals_ast[name]
         if isinstance(node, ast.Call) and isinstance(node.func, ast.Name) and node.func.id == 'from_dependency_import':
@@ -620,7 +622,13 @@ def m_sqrt(ex, p, args, kwargs, node):
         yield q, VFloat(s)
 
 
+def m_fabs(ex, p, args, kwargs, node):
+    v = arith._float_of(ex, p, args[0])
+    yield p, arith.num_abs(ex, p, v)
+
+
 BUILTINS = {
+    'math.fabs': m_fabs,
     'len': b_len, 'int': b_int, 'float': b_float, 'str': b_str, 'bool': b_bool, 'abs': b_abs,
     'min': b_minmax('min'), 'max': b_minmax('max'), 'round': b_round, 'range': b_range, 'list': b_list,
     'tuple': b_tuple, 'set': b_set, 'enumerate': b_enumerate, 'zip': b_zip, 'reversed': b_reversed,
